@@ -72,9 +72,9 @@ theorem panos_commit_block :
         panosDoCmd .save (.lit "commit") ;;
         .ite .err "err != nil" (.ret .keep ["err"]) .skip ;;
         .ite (.flag .noChanges)
-          "strings.Contains(msg, \"There are no changes to commit\") || strings.Contains(msg, \"The result of this commit would be the same\")"
+          "strings.Contains($doCmd.1, \"There are no changes to commit\") || strings.Contains($doCmd.1, \"The result of this commit would be the same\")"
           (.ret .nil ["nil"]) .skip ;;
-        .ite (.not (.flag .msgEmpty)) "msg != \"\"" (.ret .err ["_"]) .skip) env s) := by
+        .ite (.not (.flag .msgEmpty)) "$doCmd.1 != \"\"" (.ret .err ["_"]) .skip) env s) := by
   intro env s hj
   by_cases hm : s.mode = .run
   · have h1 := panosDoCmd_spec _ panosRep .save (.lit "commit") env s hj hm
@@ -106,8 +106,8 @@ theorem panos_poll_block :
         .ite .err "err != nil" (.ret .keep ["err"]) .skip ;;
         xmlUnmarshal ;;
         .ite .err "err != nil" (.ret .keep ["err"]) .skip ;;
-        .ite (.flag .pend) "s.Result == \"PEND\"" .cont
-          (.ite (.flag .jobOk) "s.Result == \"OK\"" (.ret .nil ["nil"]) (.ret .err ["_"]))) env s) := by
+        .ite (.flag .pend) "¬$new.Result != \"PEND\"" .cont
+          (.ite (.flag .jobOk) "¬$new.Result != \"OK\"" (.ret .nil ["nil"]) (.ret .err ["_"]))) env s) := by
   intro env s hj
   by_cases hm : s.mode = .run
   · have h1 := panosDoCmd_spec _ panosRep .save (.lit "show jobs") env s hj hm
@@ -168,10 +168,10 @@ theorem panos_checkha_block :
     ∀ env s, J (badChecked .panos) s → J (badChecked .panos) (exec panosCheckHABody env s) := by
   intro env s hj
   by_cases hm : s.mode = .run
-  · have h1 := panosHttpPrefixGetLog_spec _ panosRep .login (.lit "show ha") env s hj hm
+  · have h1 := panosHttpPrefixGetLog_spec _ panosRep .login (.lit "show ha") env s hj hm panosHaLits
     unfold panosCheckHABody
     rw [exec_seq]
-    generalize exec (panosHttpPrefixGetLog .login (.lit "show ha")) env s = s1 at h1
+    generalize exec (panosHttpPrefixGetLog .login (.lit "show ha") panosHaLits) env s = s1 at h1
     cases h1 with
     | ok h hk he =>
       have hm1 := h.mode
@@ -194,7 +194,7 @@ theorem panos_checkha_block :
 theorem panos_config_block :
     ∀ env s, J (badChecked .panos) s →
       J (badChecked .panos) (exec (
-        panosHttpPrefixGetLog .read (.lit "get config") ;;
+        panosHttpPrefixGetLog .read (.lit "get config") panosConfigLits ;;
         .ite .err "err != nil" (.ret .keep ["nil", "err"]) .skip ;;
         .call "parseResponseConfig" ["_"] (
           panosParseResponse ;;
@@ -203,9 +203,9 @@ theorem panos_config_block :
         .ite .err "err != nil" (.ret .err ["_", "_"]) .skip) env s) := by
   intro env s hj
   by_cases hm : s.mode = .run
-  · have h1 := panosHttpPrefixGetLog_spec _ panosRep .read (.lit "get config") env s hj hm
+  · have h1 := panosHttpPrefixGetLog_spec _ panosRep .read (.lit "get config") env s hj hm panosConfigLits
     rw [exec_seq]
-    generalize exec (panosHttpPrefixGetLog .read (.lit "get config")) env s = s1 at h1
+    generalize exec (panosHttpPrefixGetLog .read (.lit "get config") panosConfigLits) env s = s1 at h1
     cases h1 with
     | ok h hk he =>
       have hm1 := h.mode
@@ -310,7 +310,7 @@ theorem nsx_login_block :
       J (badChecked .nsx) (exec (
         .roundTrip .login (.lit "session create") false ;;
         .ite .err "err != nil" (.ret .keep ["err"]) .skip ;;
-        .ite .not200 "resp.StatusCode != http.StatusOK" (.ret .err ["_"]) .skip) env s) := by
+        .ite .not200 "$PostForm.1.StatusCode != http.StatusOK" (.ret .err ["_"]) .skip) env s) := by
   intro env s hj
   by_cases hm : s.mode = .run
   · have h1 := roundTrip_spec (badChecked .nsx) .login (.lit "session create") false (by simp) env s hj hm
